@@ -546,6 +546,13 @@ class Buffer:
         # required.)
         self.preferred_column = None
 
+        # A validator receives the document, cursor position included. A
+        # cached "valid" verdict is for the old cursor position only: forget
+        # it, so that `validate()` asks the validator again. (A cached error
+        # stays: it is displayed until the text changes.)
+        if self.validation_state == ValidationState.VALID:
+            self.validation_state = ValidationState.UNKNOWN
+
         # Note that the cursor position can change if we have a selection the
         # new position of the cursor determines the end of the selection.
 
